@@ -705,7 +705,13 @@ impl Callbacks for Extract {
         let mut items = vec![];
         let mut adts = vec![];
 
-        for ldid in tcx.hir_crate_items(()).definitions() {
+        let mut all: Vec<rustc_span::def_id::LocalDefId> = tcx.hir_crate_items(()).definitions().collect();
+        for o in tcx.hir_body_owners() {
+            if matches!(tcx.def_kind(o.to_def_id()), DefKind::Closure) && !all.contains(&o) {
+                all.push(o);
+            }
+        }
+        for ldid in all {
             let did = ldid.to_def_id();
             let kind = tcx.def_kind(did);
             match kind {
